@@ -208,9 +208,9 @@ fn bh_texts(cap: usize, thorough: bool) -> Vec<Vec<u8>> {
         ps.push(p);
     }
     let ls: Vec<usize> = if thorough {
-        vec![0, 1, 2, 3, 4, 5, 6, 7, 8, 9, 12, cap - 1, cap, cap + 1, cap + 2, cap + 3, cap + 4, cap + 5, cap + 8, cap + 10, 2 * cap, 200]
+        vec![0, 1, 2, 3, 4, 5, 6, 7, 8, 9, 12, cap - 1, cap, cap + 1, cap + 2, cap + 3, cap + 4, cap + 5, cap + 8, cap + 10, 2 * cap, 200, 254, 255, 256, 257, 258, 259, 260, 261, 300, 511, 512, 515, 65535, 65536, 65539]
     } else {
-        vec![0, 1, 3, 4, 5, 7, 8, cap, cap + 1, cap + 3, cap + 4, cap + 10, 200]
+        vec![0, 1, 3, 4, 5, 7, 8, cap, cap + 1, cap + 3, cap + 4, cap + 10, 200, 255, 256, 257, 258, 259, 260, 300, 515, 65539]
     };
     let syms: &[u8] = if thorough { &[0, 63, 27] } else { &[0, 63] };
     for &p in &ps {
@@ -219,6 +219,9 @@ fn bh_texts(cap: usize, thorough: bool) -> Vec<Vec<u8>> {
                 for &sym in syms {
                     if l == 0 && sym != syms[0] {
                         continue;
+                    }
+                    if l > 1000 && !(p <= 1 && q <= 1 && sym == syms[0]) {
+                        continue; // runs longer than 16-bit counters: a few placements only
                     }
                     let mut s = b64s(&ramp(p, 0));
                     s.extend(std::iter::repeat(refmodel::B64[sym as usize]).take(l));
@@ -319,7 +322,8 @@ pub fn corpus(thorough: bool) -> (Vec<Vec<u8>>, usize) {
     let nbase = texts.len();
     // deviation 1: every single-byte edit of strided seeds
     let nseeds = if thorough { 2000 } else { 400 };
-    let seeds: Vec<Vec<u8>> = texts.iter().step_by((nbase / nseeds).max(1)).cloned().collect();
+    // (texts with very long runs are not edit seeds: one edit per offset of a 64 KiB text is not a small deviation family)
+    let seeds: Vec<Vec<u8>> = texts.iter().filter(|t| t.len() <= 320).step_by((nbase / nseeds).max(1)).cloned().collect();
     let bytes = [b':', b',', b'A', b'/', b'0', b'9', b'@', 0u8, 0x80, 0xff];
     let mut edits: Vec<Vec<u8>> = vec![];
     let edit1 = |s: &Vec<u8>, out: &mut Vec<Vec<u8>>| {
